@@ -100,6 +100,24 @@ def make_D2(opts):
     return K
 
 
+def _make_M(opts, sep):
+    # ONE class statement, two declarations whose GENERATED CODE is textually identical (the separator lives in the field object):
+    # both are served by the same cache file and, within a process, by the same imported module
+    class K(Packet):
+        __bisturi__ = opts
+        z = Int(1)
+        d = Data(until_marker=sep)
+    return K
+
+
+def make_M(opts):
+    return _make_M(opts, b'\\n')
+
+
+def make_M2(opts):
+    return _make_M(opts, b';')
+
+
 def make_U(opts):
     # identifiers are not limited to ascii: the field names reach the generated code as they are
     class K(Packet):
@@ -184,6 +202,9 @@ def expected(decl):
                 out.append(('ok', tuple(vals)))
         elif decl == 'C':
             out.append(('ok', (raw[0], raw[1:2])) if len(raw) >= 2 else ('err',))
+        elif decl in ('M', 'M2'):
+            sep = b'\n' if decl == 'M' else b';'
+            out.append(('ok', (raw[0], raw[1:raw.index(sep, 1)])) if len(raw) >= 2 and sep in raw[1:] else ('err',))
         elif decl == 'U':
             out.append(('ok', (raw[0], raw[1])) if len(raw) >= 2 else ('err',))
         elif decl == 'U2':
@@ -193,8 +214,8 @@ def expected(decl):
     packs = {'A': (b'\x00', b'\x05'), 'A2': (b'\x00', b'\x05'), 'B': (b'\x00\x00', b'\x00\x05'), 'C': (b'\x00\x00', b'\x05\x00'),
              'V': (b'\x00', b'\x05'), 'E': (b'\x00\x00', b'\x00\x05'), 'E2': (b'\x00\x00', b'\x05\x00'),
              'L': (bytes(82), b'\x05' + bytes(81)), 'L2': (bytes(82), b'\x05' + bytes(81)), 'D': (b'\x00', b'\x05'), 'D2': (b'\x00', b'\x05'),
-             'U': (b'\x00\x03', b'\x05\x03'), 'U2': (b'\x00\x03', b'\x05\x03')}[decl]
-    neg = {'A': ('err',), 'A2': ('ok', b'\xff'), 'B': ('err',), 'C': ('err',), 'V': ('err',), 'E': ('err',), 'E2': ('err',), 'L': ('err',), 'L2': ('err',), 'D': ('err',), 'D2': ('err',), 'U': ('err',), 'U2': ('ok', b'\xff\x03')}[decl]
+             'U': (b'\x00\x03', b'\x05\x03'), 'U2': (b'\x00\x03', b'\x05\x03'), 'M': (b'\x00\n', b'\x05\n'), 'M2': (b'\x00;', b'\x05;')}[decl]
+    neg = {'A': ('err',), 'A2': ('ok', b'\xff'), 'B': ('err',), 'C': ('err',), 'V': ('err',), 'E': ('err',), 'E2': ('err',), 'L': ('err',), 'L2': ('err',), 'D': ('err',), 'D2': ('err',), 'U': ('err',), 'U2': ('ok', b'\xff\x03'), 'M': ('err',), 'M2': ('err',)}[decl]
     extra = ()
     if decl == 'D':
         extra = (('ok', b'\x03abc'),)          # K(d=b'abc').pack(): the length is computed
@@ -204,7 +225,7 @@ def expected(decl):
 
 
 FIELDS = {'A': ('a',), 'A2': ('a',), 'B': ('a',), 'C': ('a', 'b'), 'V': ('n', 'd'), 'E': ('a',), 'E2': ('a',), 'L': LNAMES, 'L2': LNAMES, 'D': ('n', 'd'), 'D2': ('n', 'd'),
-          'U': ('tama\u00f1o', 'se\u00f1al'), 'U2': ('tama\u00f1o', 'se\u00f1al')}
+          'U': ('tama\u00f1o', 'se\u00f1al'), 'U2': ('tama\u00f1o', 'se\u00f1al'), 'M': ('z', 'd'), 'M2': ('z', 'd')}
 
 
 def battery(K, decl):
